@@ -75,6 +75,7 @@ import (
 	"fmt"
 	"go/types"
 	"strings"
+	"unicode"
 
 	"github.com/awalterschulze/goderive/derive"
 )
@@ -274,7 +275,17 @@ func wrap(value string) string {
 
 func prepend(before, after string) string {
 	bs := strings.Split(before, ".")
-	b := strings.Replace(bs[0], "*", "", -1)
+	// before is not always a variable name, for a private field of an external struct it is a conversion of an unsafe pointer,
+	// so only keep the characters that can be part of an identifier.
+	b := strings.Map(func(r rune) rune {
+		if r == '_' || unicode.IsLetter(r) || unicode.IsDigit(r) {
+			return r
+		}
+		return -1
+	}, bs[0])
+	if len(b) == 0 || unicode.IsDigit(rune(b[0])) {
+		b = "v" + b
+	}
 	return b + "_" + after
 }
 
